@@ -169,6 +169,19 @@ spif_bool_t spiftool_safe_strncpy(spif_charptr_t dest, const spif_charptr_t src,
 }
 #endif
 
+#ifdef VERIF_MEMHASH_STRLEN_GHOST
+/* strlen for the strdup units (define VERIF_OWN_STRLEN before vprelude.h): the argument is the unit's
+ * one C string of exactly vg_n2 characters - asserted (terminator at vg_n2, no NUL at the ghost
+ * position vg_j below it), then vg_n2 is returned.  env.h's strlen returns SOME terminator position,
+ * which may differ between the two calls spifmem_strdup makes (its own and strcpy's). */
+size_t strlen(const char *s)
+{
+    __CPROVER_assert(s != NULL && __CPROVER_r_ok(s, vg_n2 + 1) && s[vg_n2] == 0 && (!(vg_j < vg_n2) || s[vg_j] != 0),
+                     "strlen (ghost model): argument is the C string of exactly vg_n2 characters");
+    return vg_n2;
+}
+#endif
+
 /* strcpy: ASSUMES src is a valid C string (see env.h strlen); dest must hold strlen+1 bytes
  * (checked).  Over-approximation of the copy: terminator and ghost byte vg_k are copied, the
  * other bytes of dest[0..n] are arbitrary. */
